@@ -12,10 +12,15 @@ def check(ctx):
     ctx.assume("only an interrupt delivered while the calling thread is inside queue.join() is considered; a second interrupt during cleanup is not")
     r = E.discover(ctx.model)
     rr = R.discover(ctx.model, r)
-    E.rule_interrupt_cleanup(ctx, "C17.K1", r)
-    E.rule_sentinels(ctx, "C17.K1", r)
-    E.rule_pool_joins(ctx, "C17.K1", r)
-    E.rule_stop_discipline(ctx, "C17.K2", r)
-    R.rule_nothing_swallows_interrupt(ctx, "C17.K3", rr)
-    R.rule_sentinel_priority(ctx, "C17.K4", rr)
-    R.rule_observer_exit(ctx, "C17.K5", rr)
+    ctx.run(E.rule_interrupt_cleanup, "C17.K1", r)
+    ctx.run(E.rule_sentinels, "C17.K1", r)
+    ctx.run(E.rule_pool_joins, "C17.K1", r)
+    ctx.run(E.rule_stop_discipline, "C17.K2", r)
+    ctx.run(R.rule_nothing_swallows_interrupt, "C17.K3", rr)
+    ctx.run(R.rule_sentinel_priority, "C17.K4", rr)
+    ctx.run(R.rule_observer_exit, "C17.K5", rr)
+    from .extra import rule_composite_exit_stack, rule_finally_clean, rule_exit_not_truthy
+    ctx.run(rule_composite_exit_stack, "C17.K5")
+    ctx.run(rule_exit_not_truthy, "C17.K3")
+    ctx.run(rule_finally_clean, "C17.K3", [rr.run, rr.apply, rr.stale, rr.run_physical, r.engine, r.pool])
+    ctx.run(E.rule_first_error, "C17.K3", r)
